@@ -478,6 +478,35 @@ func init() {
 		Rule: "malformed stream over real stored-node encodings of random canonical tries (truncation at every length, separators removed/doubled, all 16 type codes and high bits, version/origin bytes dropped or inflated, splices between node kinds, child hex fields of odd / > 64 / short length, non-hex, upper case, random bytes) through CreateNode+Encode+GetHashBytes; every 25th case plants damaged dead-node records (truncated, inflated map headers, non-hex keys, nested unknown fields, random bytes) and runs PNodeDB.PruneBelowVersion; non-trivial = a case with both accepted and rejected inputs",
 		Gen:  genC15Mpt,
 		Run:  runC15Mpt,
+		Exhaustive: func(tier string, emit func([]string)) {
+			// every type byte 0..255 in front of a family of tiny bodies (with and without the 16 tracker bytes)
+			bodies := []string{"", ":", "::", ":::", "a:", "a:b", "a:b:", "a:b:c", ":a", "0:", "00:", "000:", strings.Repeat(":", 15),
+				strings.Repeat(":", 16), strings.Repeat(":", 17), strings.Repeat(":", 16) + "v", "zz:" + strings.Repeat(":", 15),
+				strings.Repeat("a", 64) + ":" + strings.Repeat(":", 15), strings.Repeat("a", 65) + ":" + strings.Repeat(":", 15),
+				strings.Repeat("a", 66) + ":" + strings.Repeat(":", 15), strings.Repeat("a", 67) + ":" + strings.Repeat(":", 15)}
+			for _, tr := range []int{0, 3, 8, 15, 16} {
+				for _, b := range bodies {
+					var ops []string
+					for t := 0; t < 256; t++ {
+						m := append([]byte{byte(t)}, bytes.Repeat([]byte{7}, tr)...)
+						m = append(m, b...)
+						ops = append(ops, "dec "+hx(m))
+					}
+					emit(ops)
+				}
+			}
+			if tier == "thorough" {
+				// every byte string of length <= 2
+				emit([]string{"dec -"})
+				for a := 0; a < 256; a++ {
+					ops := []string{"dec " + hx([]byte{byte(a)})}
+					for b := 0; b < 256; b++ {
+						ops = append(ops, "dec "+hx([]byte{byte(a), byte(b)}))
+					}
+					emit(ops)
+				}
+			}
+		},
 		DefaultN: func(tier string) int {
 			if tier == "thorough" {
 				return 3000
